@@ -183,6 +183,7 @@ Proof.
   destruct c; cbn [process_command].
   - apply (mrel_bind _ PO); [apply same_store_modify; reflexivity|intros _].
     apply (mrel_bind _ PO); [apply same_store_modify; reflexivity|intros _].
+    apply (mrel_bind _ PO); [apply same_store_modify; reflexivity|intros _].
     apply (mrel_bind _ PO); [|intros _; apply same_store_run].
     apply same_store_of_keeps; [apply (keeps_run_from_first _ rf_st_toks)|apply (keeps_run_from_first _ rf_st_keys)].
   - apply (mrel_bind _ PO); [intros s0; split; reflexivity|intros ls].
